@@ -56,7 +56,8 @@ def members(v: Obj) -> FrozenSet[int]:
         if not (isinstance(inner, Obj) and inner._kind == "TypedValue"):
             raise AnchorError("narrowing model: SubclassValue of something other than a class")
         t = inner.get("typ", None)
-        return frozenset(i for i, o in enumerate(UNIVERSE) if isinstance(o, type) and issubclass(o, t))
+        # type[float] also stands for the class int: the numeric promotion applies to the classes as it does to their instances
+        return frozenset(i for i, o in enumerate(UNIVERSE) if isinstance(o, type) and issubclass(o, (t,) + PROMOTION.get(t, ())))
     raise AnchorError(f"narrowing model: membership of {k} is not defined")
 
 
@@ -199,6 +200,7 @@ class NarrowModel:
             "unannotate": lambda args: args[0],
             "KnownValue": lambda args: self.value("KnownValue", args[0]),
             "TypedValue": lambda args: self.value("TypedValue", args[0]),
+            "SubclassValue": lambda args: self.value("SubclassValue", args[0]),
             "unite_values": self.unite,
             "flatten_values": flatten,
             "safe_issubclass": lambda args: isinstance(args[0], type) and isinstance(args[1], (type, tuple)) and issubclass(args[0], args[1]),
